@@ -1,9 +1,9 @@
 PROP = dict(
     id="C14",
     lean_modules=["TongoProofs.C14", "TongoProofs.C14Tlb"],
-    gen=["WalletConsts", "TlbTypes"],
+    gen=["WalletConsts", "TlbTypes", "WalletInts"],
     # the model IS the specification: bodies, envelope, digest, decoder outputs and verifier verdicts are bit-exact
-    spec_ops=("m.body", "m.bodyx", "m.extn", "m.raw", "m.decode", "m.verify", "prim.sha256"),
+    spec_ops=("m.body", "m.bodyx", "m.extn", "m.raw", "m.decode", "m.verify", "m.int", "m.intdec", "prim.sha256"),
     rule="every sending version (V3R1, V3R2, V4R1, V4R2, V5Beta, V5R1, HighLoadV2R2) x random Ed25519 keys x workchain / "
          "sub-wallet / network options x seqno and valid-until in {0,1,2^31,2^32-1,random} x 0..4 messages mostly, 5/17/100/"
          "max-1/max for the large-capacity versions, max+1 and max+50 for the limit; messages are either marshalled "
@@ -16,6 +16,17 @@ PROP = dict(
          "decoded fields equal the requested ones, over-limit sends refused; send modes 0,1,2,3,64,128,255 and random on "
          "every construction path (Send via Sendable.ToInternal, CreateMessageBody, RawSend with RawMessage): extracted modes = "
          "REQUESTED modes (the mode ToInternal returns is under test, not trusted). "
+         "The GENERATOR never runs the wallet package: requested internal messages, signed cells, bodies, envelopes and the "
+         "wallet's state init / address are built bit by bit from the TL-B layouts (harness/cmd/vh/c14ref.go) and signed with "
+         "crypto/ed25519; the wallet code only runs in the executors. Batch-size boundary for every version: max-1 and max "
+         "accepted with exactly that many messages carried in order, max+1 and max+50 refused with nothing sent (oracle and "
+         "model). Outgoing messages WITH a state init on every construction path (wallet.Message{Code,Data}, ContractDeploy, "
+         "RawMessage whose cell carries an init; alone and mixed with plain transfers; empty data cell, code with a ref): "
+         "ToInternal+Marshal against the model (m.int, all three Sendable kinds, comments across snake boundaries), the "
+         "library decoder on the reference message against the model's reader (m.intdec), and in the oracle the extracted "
+         "init field by field (by reference, code present + hash, data present + hash, no library / split_depth / special, "
+         "destination, bounce, amount; for a deploy destination = hash of the CARRIED state init); RawSendV2's envelope: "
+         "destination = hash of the hand-built wallet state init, init attached exactly when requested. "
          "v5r1 extended actions: 0..255 send actions together with nil / 1..4 extended actions (add / remove extension with "
          "addr_std in workchains 0,-1,1,127,-128 or addr_none, set-signature-allowed), both opcodes, through "
          "CreateSignedMsgBodyCell; the ExtensionAction form marshalled from wallet.MessageV5 (with / without send actions); "
@@ -35,31 +46,58 @@ PROP = dict(
         "Lean SHA-256 validated against crypto/sha256 on every run",
     ],
     assumptions=[
-        "unforgeability of Ed25519 and collision-freedom of SHA-256 on the representations compared: 'verifies against no "
-        "other key' and 'stops verifying when any bit of the signed body changes' are reduced to them by "
-        "signed_digest_is_body + body_repr_injective + different_body_different_digest; they are assumptions, exercised with "
-        "real Ed25519 (foreign keys, bit flips) on every run",
+        "IDEAL SIGNATURE SCHEME (Sig.Ideal, lean/TongoProofs/Lemmas/SigIdeal.lean) - a local hypothesis of every negative "
+        "theorem: SigCorrect; SigUnforgeable (verify pk m s = true -> exists sk, pk = pub sk and s = sign sk m); SigBinds (a "
+        "signature determines its signer's public key and, on 32-byte digests, the digest). Real Ed25519 satisfies them only "
+        "up to negligible probability against bounded adversaries; the same negatives are exercised with crypto/ed25519 "
+        "(foreign keys, bit flips) on every run. The accept-all verifier does NOT satisfy them (Sig.accept_all_violates); a "
+        "toy scheme does (Sig.toy_ideal)",
+        "CollisionFree SHA-256 on the representations of ALL cells of the two body trees compared (Cell.reprs): 'stops "
+        "verifying when any bit changes' is verify_rejects_changed_body = signed_digest_is_body + tree-level injectivity "
+        "(Cell.hashO_tree_inj) + SigUnforgeable + SigBinds; both trees are trees of ordinary cells (Cell.wfOrd)",
+        "a changed bit INSIDE the signature: the mutated string is accepted only if it is itself a signature by a secret "
+        "key of the same public key over the (possibly changed) signed part (verified_was_signed) - in the ideal model "
+        "nothing more can be said, the key holder may have signed other content",
+        "Cell.hashO is Go's Cell.Hash on trees of level-0, non-pruned cells (signed_digest_is_cell_hash: the signed layout is "
+        "such a tree when the outgoing messages are); for outgoing messages containing pruned branches / higher-level cells "
+        "the digest theorems do not describe Go (never generated)",
         "signature correctness (premise of verify_own_key)",
         "tlb.Message decoding is modelled on the ext_in_msg_info fragment (other message kinds and state-inits with "
         "libraries answer 'unmodelled' and are never generated); exotic structure cells are outside the model; extended "
         "actions carry addr_none / addr_std without anycast (addr_extern, addr_var, anycast answer 'unmodelled')",
         "MessageV5.RawMessages() has no case for ExtensionAction: ExtractRawMessages returns no messages for that form even "
         "when it carries send actions; modelled as the code is (decode_extension_action), not judged",
-        "internal messages are arbitrary cells for the model; their own TL-B marshalling (wallet.Message.ToInternal) is "
-        "exercised by the harness but belongs to C03/C04",
+        "outgoing internal messages are modelled for wallet.Message, SimpleTransfer (without extra currencies) and "
+        "ContractDeploy with cell arguments (TongoModel/WalletInt.lean); inside signed bodies they are arbitrary cells",
     ],
-    partial=[],
+    partial=[
+        "'verifies against no other key' and 'stops verifying if any bit changes' are proved CONDITIONALLY on the ideal "
+        "signature scheme and collision-freedom (verify_rejects_other_key(_highload), verify_rejects_changed_body, "
+        "built_message_rejects_changed_body, verified_was_signed): no unconditional or game-based statement",
+        "too_many_refused / limit_boundary are about the message COUNT handed to RawSendV2's guard (the payload marshalers' "
+        "own limits are separate conjuncts); C14Tlb ties the v3 / v4 / SignedMsgBody / W5Actions descriptors only",
+    ],
     level_text="Theorems for all inputs about the Lean model: for all seven sending versions the builders return written-out layouts "
                "that fit a cell (highload: the dictionary with keys 0..n-1 always builds, n <= 254); the digest signed and the digest verified are the representation hash of exactly the cell "
                "holding ids, expiry, seqno, [op] and the messages; the wallet's own key verifies (signature correctness "
                "assumed); decoding the built external message returns the same ids, seqno, expiry and messages with modes in "
-               "order (highload: through the C05 dictionary theorems on the shared Hashmap model); representations of ordinary cells are injective in bits and ref hashes, so any change of the signed "
+               "order (highload: through the C05 dictionary theorems on the shared Hashmap model); UNDER the ideal signature scheme Sig.Ideal and "
+               "CollisionFree SHA-256 on the cells of the two trees: the built message of every version (signature in front, "
+               "or in the last 512 bits for v5; highload included) is rejected for every other 32-byte key "
+               "(verify_rejects_other_key, _highload) and the signature re-attached to ANY different tree of ordinary cells - a bit, a "
+               "ref or any cell at any depth changed - is rejected under the wallet's own key (verify_rejects_changed_body); "
+               "whatever verifies was signed by a secret key of that public key (verified_was_signed); the accept-all verifier "
+               "is excluded by the hypotheses, a toy ideal scheme instantiates them; a requested message with code and data is "
+               "marshalled without overflow and read back with exactly that code and data, both present, no library "
+               "(carried_init_is_requested), no init without both (no_init_without_code_and_data), a ContractDeploy is addressed to the hash of the "
+               "state init it carries (deploy_address_is_carried_init_hash); the batch guard accepts every size up to and including the version's maximum and "
+               "refuses max+1 with nothing sent (limit_boundary, too_many_refused); representations of ordinary cells are injective in bits and ref hashes, so any change of the signed "
                "body changes the digest unless SHA-256 collides; over-limit sends are refused before anything is sent. Two "
                "defects found by the check (empty highload payload undecodable, v5 beta unverifiable) are repaired in the "
                "code; their negations on the old model are theorems. The model is tied to the Go code by bit-exact "
                "correspondence on every run, including all 7 versions with up to 255 messages and real Ed25519.",
-    level_note="trusted: Lean kernel, harness, validated SHA-256; assumptions: Ed25519 unforgeability/correctness, SHA-256 "
-               "collision-freedom",
+    level_note="trusted: Lean kernel, harness, validated SHA-256; IDEALISATIONS (hypotheses of the negative theorems): ideal "
+               "signature scheme (correct, unforgeable, binding), SHA-256 collision-freedom",
     technique="functional model with explicit builder/reader monads, layout lemmas, append/bit-list injectivity, "
               "differential correspondence with real crypto, direct property oracles",
 )
